@@ -566,4 +566,450 @@ theorem work_star_of_single (x : Re) (h1 : ∀ u, (runs x u).length ≤ 1)
     (fun u => Nat.le_trans List.countP_le_length (h1 u)) N WN 1 hW (fun u _ => h1 u) s hs
   simpa [Nat.add_comm, Nat.add_left_comm] using this
 
+/-! ### polynomial bounds `B c d n = c * (n+1)^d` -/
+
+def B (c d n : Nat) : Nat := c * (n + 1) ^ d
+
+theorem one_le_succ_pow (d n : Nat) : 1 ≤ (n + 1) ^ d := Nat.one_le_pow _ _ (Nat.succ_pos _)
+
+theorem le_B (c d n : Nat) : c ≤ B c d n := Nat.le_mul_of_pos_right _ (one_le_succ_pow d n)
+
+theorem B_mono {c c' d d' n n' : Nat} (hc : c ≤ c') (hd : d ≤ d') (hn : n ≤ n') : B c d n ≤ B c' d' n' := by
+  unfold B
+  apply Nat.mul_le_mul hc
+  calc (n + 1) ^ d ≤ (n' + 1) ^ d := Nat.pow_le_pow_left (by omega) d
+    _ ≤ (n' + 1) ^ d' := Nat.pow_le_pow_right (Nat.succ_pos _) hd
+
+theorem B_add (c c' d n : Nat) : B c d n + B c' d n = B (c + c') d n := by unfold B; rw [Nat.add_mul]
+
+theorem B_mul (c c' d d' n : Nat) : B c d n * B c' d' n = B (c * c') (d + d') n := by
+  unfold B; rw [Nat.pow_add]; exact Nat.mul_mul_mul_comm ..
+
+theorem B_mul_const (c d n w : Nat) : B c d n * w = B (c * w) d n := by
+  unfold B; rw [Nat.mul_right_comm]
+
+theorem const_mul_B (k c d n : Nat) : k * B c d n = B (k * c) d n := by
+  unfold B; rw [Nat.mul_assoc]
+
+theorem succ_mul_B (c d n : Nat) : (n + 1) * B c d n = B c (d + 1) n := by
+  unfold B; rw [Nat.pow_succ, Nat.mul_left_comm, Nat.mul_comm ((n + 1) ^ d)]
+
+theorem polyBounded_iff {r : Re} {c d : Nat} : PolyBounded r c d ↔ ∀ s, work r s ≤ B c d s.length := Iff.rfl
+
+/-! ### the degree calculus
+
+`PB r d` : the search tree of `r` is `O(n^d)`;  `RP r d` : the number of results is `O(n^d)`;
+`Sparse r Q` : boundedly many results at `Q` positions;  `Sparse1 r Q` : at most one;
+`Dead r Q` : outside `Q`, `r` fails at bounded cost;  `Cheap r Q` : outside `Q`, `r` costs `O(1)`. -/
+
+def PB (r : Re) (d : Nat) : Prop := ∃ c, PolyBounded r c d
+def RP (r : Re) (d : Nat) : Prop := ∃ c, ∀ s, (runs r s).length ≤ B c d s.length
+def Sparse (r : Re) (Q : List Nat → Bool) : Prop := ∃ k, ∀ s, (runs r s).countP Q ≤ k
+def Sparse1 (r : Re) (Q : List Nat → Bool) : Prop := ∀ s, (runs r s).countP Q ≤ 1
+def Dead (r : Re) (Q : List Nat → Bool) : Prop := ∃ w, ∀ t, Q t = false → runs r t = [] ∧ work r t ≤ w
+def Cheap (r : Re) (Q : List Nat → Bool) : Prop := ∃ w, ∀ t, Q t = false → work r t ≤ w
+
+theorem PB.mono {r : Re} {d g : Nat} (h : PB r d) (hd : d ≤ g := by omega) : PB r g := by
+  obtain ⟨c, h⟩ := h
+  exact ⟨c, fun s => Nat.le_trans (h s) (B_mono (Nat.le_refl _) hd (Nat.le_refl _))⟩
+
+theorem RP.mono {r : Re} {d g : Nat} (h : RP r d) (hd : d ≤ g := by omega) : RP r g := by
+  obtain ⟨c, h⟩ := h
+  exact ⟨c, fun s => Nat.le_trans (h s) (B_mono (Nat.le_refl _) hd (Nat.le_refl _))⟩
+
+theorem RP.of_PB {r : Re} {d : Nat} (h : PB r d) : RP r d := by
+  obtain ⟨c, h⟩ := h
+  exact ⟨c, fun s => Nat.le_trans (runs_length_le_work r s) (h s)⟩
+
+theorem PB.of_const {r : Re} (c : Nat) (h : ∀ s, work r s ≤ c) {d : Nat} : PB r d :=
+  ⟨c, fun s => Nat.le_trans (h s) (le_B c d _)⟩
+
+theorem RP.of_const {r : Re} (c : Nat) (h : ∀ s, (runs r s).length ≤ c) {d : Nat} : RP r d :=
+  ⟨c, fun s => Nat.le_trans (h s) (le_B c d _)⟩
+
+theorem PB.const {r : Re} (h : PB r 0) : ∃ c, ∀ s, work r s ≤ c := by
+  obtain ⟨c, h⟩ := h
+  exact ⟨c, fun s => by simpa [PolyBounded] using h s⟩
+
+theorem RP.const {r : Re} (h : RP r 0) : ∃ c, ∀ s, (runs r s).length ≤ c := by
+  obtain ⟨c, h⟩ := h
+  exact ⟨c, fun s => by simpa [B] using h s⟩
+
+theorem PB.eps {d : Nat} : PB Re.eps d := PB.of_const 1 (fun s => by simp)
+theorem PB.cls {ivs} {d : Nat} : PB (Re.cls ivs) d := PB.of_const 1 (fun s => by simp)
+theorem PB.eos {d : Nat} : PB Re.eos d := PB.of_const 1 (fun s => by simp)
+theorem PB.eosNl {d : Nat} : PB Re.eosNl d := PB.of_const 1 (fun s => by simp)
+theorem PB.unsupported {d : Nat} : PB Re.unsupported d := PB.of_const 1 (fun s => by simp)
+theorem RP.cls {ivs} {d : Nat} : RP (Re.cls ivs) d := RP.of_const 1 (runs_cls_length_le ivs)
+
+theorem PB.group {id : Nat} {a : Re} {d : Nat} (h : PB a d) : PB (Re.group id a) d := by
+  obtain ⟨c, h⟩ := h
+  refine ⟨1 + c, fun s => ?_⟩
+  have h1 : work a s ≤ B c d s.length := h s
+  have h2 := le_B 1 d s.length
+  show work (Re.group id a) s ≤ B (1 + c) d s.length
+  rw [work_group, ← B_add]; omega
+
+theorem RP.group {id : Nat} {a : Re} {d : Nat} (h : RP a d) : RP (Re.group id a) d := by
+  obtain ⟨c, h⟩ := h
+  exact ⟨c, fun s => by rw [runs_group]; exact h s⟩
+
+theorem PB.alt {a b : Re} {d e g : Nat} (ha : PB a d) (hb : PB b e)
+    (hd : d ≤ g := by omega) (he : e ≤ g := by omega) : PB (Re.alt a b) g := by
+  obtain ⟨ca, ha⟩ := ha
+  obtain ⟨cb, hb⟩ := hb
+  refine ⟨1 + ca + cb, fun s => ?_⟩
+  have h1 : work a s ≤ B ca g s.length := Nat.le_trans (ha s) (B_mono (Nat.le_refl _) hd (Nat.le_refl _))
+  have h2 : work b s ≤ B cb g s.length := Nat.le_trans (hb s) (B_mono (Nat.le_refl _) he (Nat.le_refl _))
+  have h3 := le_B 1 g s.length
+  show work (Re.alt a b) s ≤ B (1 + ca + cb) g s.length
+  rw [work_alt, ← B_add, ← B_add]; omega
+
+theorem RP.alt {a b : Re} {d e g : Nat} (ha : RP a d) (hb : RP b e)
+    (hd : d ≤ g := by omega) (he : e ≤ g := by omega) : RP (Re.alt a b) g := by
+  obtain ⟨ca, ha⟩ := ha
+  obtain ⟨cb, hb⟩ := hb
+  refine ⟨ca + cb, fun s => ?_⟩
+  have h1 := Nat.le_trans (ha s) (B_mono (Nat.le_refl _) hd (Nat.le_refl s.length))
+  have h2 := Nat.le_trans (hb s) (B_mono (Nat.le_refl _) he (Nat.le_refl s.length))
+  rw [runs_alt_length, ← B_add]; omega
+
+/-- crude rule for a concatenation -/
+theorem PB.cat {a b : Re} {d e f g : Nat} (ha : PB a d) (ra : RP a e) (hb : PB b f)
+    (hd : d ≤ g := by omega) (hef : e + f ≤ g := by omega) : PB (Re.cat a b) g := by
+  obtain ⟨ca, ha⟩ := ha
+  obtain ⟨ka, ra⟩ := ra
+  obtain ⟨cb, hb⟩ := hb
+  refine ⟨1 + ca + ka * cb, fun s => ?_⟩
+  have h0 := work_cat_le a b s (B cb f s.length)
+    (fun t ht => Nat.le_trans (hb t) (B_mono (Nat.le_refl _) (Nat.le_refl _) (runs_length_le ht)))
+  have h1 : work a s ≤ B ca g s.length := Nat.le_trans (ha s) (B_mono (Nat.le_refl _) hd (Nat.le_refl _))
+  have h2 : (runs a s).length * B cb f s.length ≤ B (ka * cb) g s.length :=
+    calc _ ≤ B ka e s.length * B cb f s.length := Nat.mul_le_mul_right _ (ra s)
+      _ = B (ka * cb) (e + f) s.length := B_mul ..
+      _ ≤ _ := B_mono (Nat.le_refl _) hef (Nat.le_refl _)
+  have h3 := le_B 1 g s.length
+  show work (Re.cat a b) s ≤ B (1 + ca + ka * cb) g s.length
+  rw [← B_add, ← B_add]; omega
+
+theorem RP.cat {a b : Re} {e f g : Nat} (ra : RP a e) (rb : RP b f) (hef : e + f ≤ g := by omega) :
+    RP (Re.cat a b) g := by
+  obtain ⟨ka, ra⟩ := ra
+  obtain ⟨kb, rb⟩ := rb
+  refine ⟨ka * kb, fun s => ?_⟩
+  have h0 := runs_cat_length_le a b s (B kb f s.length)
+    (fun t ht => Nat.le_trans (rb t) (B_mono (Nat.le_refl _) (Nat.le_refl _) (runs_length_le ht)))
+  calc _ ≤ _ := h0
+    _ ≤ B ka e s.length * B kb f s.length := Nat.mul_le_mul_right _ (ra s)
+    _ = B (ka * kb) (e + f) s.length := B_mul ..
+    _ ≤ _ := B_mono (Nat.le_refl _) hef (Nat.le_refl _)
+
+/-- maximal-munch rule for a concatenation: `b` is cheap except at `Q` positions, and `a` has
+    boundedly many results at `Q` positions -/
+theorem PB.cat_munch (Q : List Nat → Bool) {a b : Re} {d e f g : Nat} (ha : PB a d) (ra : RP a e)
+    (sa : Sparse a Q) (cb : Cheap b Q) (hb : PB b f)
+    (hd : d ≤ g := by omega) (he : e ≤ g := by omega) (hf : f ≤ g := by omega) : PB (Re.cat a b) g := by
+  obtain ⟨ca, ha⟩ := ha
+  obtain ⟨ka, ra⟩ := ra
+  obtain ⟨k, sa⟩ := sa
+  obtain ⟨w, cb⟩ := cb
+  obtain ⟨cb', hb⟩ := hb
+  refine ⟨1 + ca + ka * w + k * cb', fun s => ?_⟩
+  have h0 := work_cat_munch a b s Q w (B cb' f s.length) (fun t _ hq => cb t hq)
+    (fun t ht _ => Nat.le_trans (hb t) (B_mono (Nat.le_refl _) (Nat.le_refl _) (runs_length_le ht)))
+  have h1 : work a s ≤ B ca g s.length := Nat.le_trans (ha s) (B_mono (Nat.le_refl _) hd (Nat.le_refl _))
+  have h2 : (runs a s).length * w ≤ B (ka * w) g s.length :=
+    calc _ ≤ B ka e s.length * w := Nat.mul_le_mul_right _ (ra s)
+      _ = B (ka * w) e s.length := B_mul_const ..
+      _ ≤ _ := B_mono (Nat.le_refl _) he (Nat.le_refl _)
+  have h3 : (runs a s).countP Q * B cb' f s.length ≤ B (k * cb') g s.length :=
+    calc _ ≤ k * B cb' f s.length := Nat.mul_le_mul_right _ (sa s)
+      _ = B (k * cb') f s.length := const_mul_B ..
+      _ ≤ _ := B_mono (Nat.le_refl _) hf (Nat.le_refl _)
+  have h4 := le_B 1 g s.length
+  show work (Re.cat a b) s ≤ B (1 + ca + ka * w + k * cb') g s.length
+  rw [← B_add, ← B_add, ← B_add]; omega
+
+theorem RP.cat_munch (Q : List Nat → Bool) {a b : Re} {e f g : Nat} (ra : RP a e)
+    (sa : Sparse a Q) (cb : Cheap b Q) (rb : RP b f)
+    (he : e ≤ g := by omega) (hf : f ≤ g := by omega) : RP (Re.cat a b) g := by
+  obtain ⟨ka, ra⟩ := ra
+  obtain ⟨k, sa⟩ := sa
+  obtain ⟨w, cb⟩ := cb
+  obtain ⟨kb, rb⟩ := rb
+  refine ⟨ka * w + k * kb, fun s => ?_⟩
+  have h0 := runs_cat_length_munch a b s Q w (B kb f s.length)
+    (fun t _ hq => Nat.le_trans (runs_length_le_work b t) (cb t hq))
+    (fun t ht _ => Nat.le_trans (rb t) (B_mono (Nat.le_refl _) (Nat.le_refl _) (runs_length_le ht)))
+  have h2 : (runs a s).length * w ≤ B (ka * w) g s.length :=
+    calc _ ≤ B ka e s.length * w := Nat.mul_le_mul_right _ (ra s)
+      _ = B (ka * w) e s.length := B_mul_const ..
+      _ ≤ _ := B_mono (Nat.le_refl _) he (Nat.le_refl _)
+  have h3 : (runs a s).countP Q * B kb f s.length ≤ B (k * kb) g s.length :=
+    calc _ ≤ k * B kb f s.length := Nat.mul_le_mul_right _ (sa s)
+      _ = B (k * kb) f s.length := const_mul_B ..
+      _ ≤ _ := B_mono (Nat.le_refl _) hf (Nat.le_refl _)
+  rw [← B_add]; omega
+
+/-! #### `Dead` / `Cheap` -/
+
+theorem Dead.mono {r : Re} {Q Q' : List Nat → Bool} (h : Dead r Q) (hq : ∀ t, Q' t = false → Q t = false) :
+    Dead r Q' := by
+  obtain ⟨w, h⟩ := h
+  exact ⟨w, fun t ht => h t (hq t ht)⟩
+
+theorem Dead.cls (ivs) : Dead (Re.cls ivs) (startsIn ivs) :=
+  ⟨1, fun t ht => ⟨runs_cls_of_not_startsIn ht, by simp⟩⟩
+
+theorem Dead.cat {a : Re} {Q : List Nat → Bool} (h : Dead a Q) (b : Re) : Dead (Re.cat a b) Q := by
+  obtain ⟨w, h⟩ := h
+  refine ⟨1 + w, fun t ht => ?_⟩
+  have := h t ht
+  rw [runs_cat, work_cat, this.1]
+  exact ⟨rfl, by simp; omega⟩
+
+theorem Dead.group {a : Re} {Q : List Nat → Bool} (h : Dead a Q) (id : Nat) : Dead (Re.group id a) Q := by
+  obtain ⟨w, h⟩ := h
+  refine ⟨1 + w, fun t ht => ?_⟩
+  have := h t ht
+  rw [runs_group, work_group]
+  exact ⟨this.1, by omega⟩
+
+theorem Dead.alt {a b : Re} {Q : List Nat → Bool} (ha : Dead a Q) (hb : Dead b Q) : Dead (Re.alt a b) Q := by
+  obtain ⟨wa, ha⟩ := ha
+  obtain ⟨wb, hb⟩ := hb
+  refine ⟨1 + wa + wb, fun t ht => ?_⟩
+  have h1 := ha t ht
+  have h2 := hb t ht
+  rw [runs_alt, work_alt, h1.1, h2.1]
+  exact ⟨rfl, by omega⟩
+
+theorem Dead.runs_eq {r : Re} {Q : List Nat → Bool} (h : Dead r Q) {t : List Nat} (ht : Q t = false) :
+    runs r t = [] := by
+  obtain ⟨w, h⟩ := h
+  exact (h t ht).1
+
+theorem Cheap.mono {r : Re} {Q Q' : List Nat → Bool} (h : Cheap r Q) (hq : ∀ t, Q' t = false → Q t = false) :
+    Cheap r Q' := by
+  obtain ⟨w, h⟩ := h
+  exact ⟨w, fun t ht => h t (hq t ht)⟩
+
+theorem Cheap.of_Dead {r : Re} {Q : List Nat → Bool} (h : Dead r Q) : Cheap r Q := by
+  obtain ⟨w, h⟩ := h
+  exact ⟨w, fun t ht => (h t ht).2⟩
+
+theorem Cheap.of_PB0 {r : Re} (h : PB r 0) (Q : List Nat → Bool) : Cheap r Q := by
+  obtain ⟨c, h⟩ := h.const
+  exact ⟨c, fun t _ => h t⟩
+
+theorem Cheap.star_of_Dead {x : Re} {Q : List Nat → Bool} (h : Dead x Q) : Cheap (Re.star x) Q := by
+  obtain ⟨w, h⟩ := h
+  refine ⟨1 + w, fun t ht => ?_⟩
+  have := h t ht
+  rw [work_star_of_nil this.1]; omega
+
+theorem Cheap.group {a : Re} {Q : List Nat → Bool} (h : Cheap a Q) (id : Nat) : Cheap (Re.group id a) Q := by
+  obtain ⟨w, h⟩ := h
+  refine ⟨1 + w, fun t ht => ?_⟩
+  have := h t ht
+  rw [work_group]; omega
+
+/-- a cheap head followed by a constant-cost tail -/
+theorem Cheap.cat_const {a b : Re} {Q : List Nat → Bool} (ha : Cheap a Q) (hb : PB b 0) :
+    Cheap (Re.cat a b) Q := by
+  obtain ⟨w, ha⟩ := ha
+  obtain ⟨c, hb⟩ := hb.const
+  refine ⟨1 + w + w * c, fun t ht => ?_⟩
+  have h1 := ha t ht
+  have h2 := work_cat_le a b t c (fun u _ => hb u)
+  have h3 : (runs a t).length * c ≤ w * c :=
+    Nat.mul_le_mul_right _ (Nat.le_trans (runs_length_le_work a t) h1)
+  omega
+
+/-! #### `Sparse` -/
+
+theorem Sparse1.sparse {r : Re} {Q : List Nat → Bool} (h : Sparse1 r Q) : Sparse r Q := ⟨1, h⟩
+
+theorem countP_mono_pred {α} (P P' : α → Bool) (h : ∀ t, P t = true → P' t = true) (l : List α) :
+    l.countP P ≤ l.countP P' := by
+  induction l with
+  | nil => simp
+  | cons a l ih =>
+    simp only [List.countP_cons]
+    cases hp : P a with
+    | false => simp; omega
+    | true => simp [h a hp]; omega
+
+theorem Sparse.mono {r : Re} {P P' : List Nat → Bool} (h : Sparse r P') (hp : ∀ t, P t = true → P' t = true) :
+    Sparse r P := by
+  obtain ⟨k, h⟩ := h
+  exact ⟨k, fun s => Nat.le_trans (countP_mono_pred P P' hp _) (h s)⟩
+
+theorem Sparse1.mono {r : Re} {P P' : List Nat → Bool} (h : Sparse1 r P') (hp : ∀ t, P t = true → P' t = true) :
+    Sparse1 r P := fun s => Nat.le_trans (countP_mono_pred P P' hp _) (h s)
+
+theorem Sparse.of_RP0 {r : Re} (h : RP r 0) (P : List Nat → Bool) : Sparse r P := by
+  obtain ⟨k, h⟩ := h.const
+  exact ⟨k, fun s => Nat.le_trans List.countP_le_length (h s)⟩
+
+theorem Sparse1.cls (ivs) (P : List Nat → Bool) : Sparse1 (Re.cls ivs) P :=
+  fun s => Nat.le_trans List.countP_le_length (runs_cls_length_le ivs s)
+
+theorem Sparse.group {a : Re} {P : List Nat → Bool} (h : Sparse a P) (id : Nat) : Sparse (Re.group id a) P := by
+  obtain ⟨k, h⟩ := h
+  exact ⟨k, fun s => by rw [runs_group]; exact h s⟩
+
+theorem Sparse1.group {a : Re} {P : List Nat → Bool} (h : Sparse1 a P) (id : Nat) : Sparse1 (Re.group id a) P :=
+  fun s => by rw [runs_group]; exact h s
+
+theorem Sparse.alt {a b : Re} {P : List Nat → Bool} (ha : Sparse a P) (hb : Sparse b P) :
+    Sparse (Re.alt a b) P := by
+  obtain ⟨ka, ha⟩ := ha
+  obtain ⟨kb, hb⟩ := hb
+  refine ⟨ka + kb, fun s => ?_⟩
+  have := ha s; have := hb s
+  rw [countP_runs_alt]; omega
+
+/-- a head with boundedly many results -/
+theorem Sparse.cat {a b : Re} {P : List Nat → Bool} (ra : RP a 0) (hb : Sparse b P) : Sparse (Re.cat a b) P := by
+  obtain ⟨ka, ra⟩ := ra.const
+  obtain ⟨kb, hb⟩ := hb
+  refine ⟨ka * kb, fun s => ?_⟩
+  rw [countP_runs_cat]
+  exact Nat.le_trans (sum_map_le_mul _ _ kb (fun t _ => hb t)) (Nat.mul_le_mul_right _ (ra s))
+
+/-- a head with at most one result -/
+theorem Sparse1.cat {a b : Re} {P : List Nat → Bool} (ra : ∀ s, (runs a s).length ≤ 1) (hb : Sparse1 b P) :
+    Sparse1 (Re.cat a b) P := by
+  intro s
+  rw [countP_runs_cat]
+  exact Nat.le_trans (sum_map_le_mul _ _ 1 (fun t _ => hb t)) (by have := ra s; omega)
+
+/-- maximal munch: only the `Q` results of `a` let `b` produce a `P` result -/
+theorem Sparse.cat_munch (Q : List Nat → Bool) {a b : Re} {P : List Nat → Bool} (sa : Sparse a Q)
+    (hpass : ∀ t, Q t = false → ∀ u ∈ runs b t, P u = false) (hb : Sparse b P) : Sparse (Re.cat a b) P := by
+  obtain ⟨ka, sa⟩ := sa
+  obtain ⟨kb, hb⟩ := hb
+  refine ⟨ka * kb, fun s => ?_⟩
+  rw [countP_runs_cat]
+  have := sum_munch (runs a s) Q (fun t => (runs b t).countP P) 0 kb
+    (fun t _ hq => by
+      have : (runs b t).countP P = 0 := by
+        rw [List.countP_eq_zero]; intro u hu; simp [hpass t hq u hu]
+      omega)
+    (fun t _ _ => hb t)
+  have h2 : (runs a s).countP Q * kb ≤ ka * kb := Nat.mul_le_mul_right _ (sa s)
+  omega
+
+theorem Sparse1.cat_munch (Q : List Nat → Bool) {a b : Re} {P : List Nat → Bool} (sa : Sparse1 a Q)
+    (hpass : ∀ t, Q t = false → ∀ u ∈ runs b t, P u = false) (hb : Sparse1 b P) : Sparse1 (Re.cat a b) P := by
+  intro s
+  rw [countP_runs_cat]
+  have := sum_munch (runs a s) Q (fun t => (runs b t).countP P) 0 1
+    (fun t _ hq => by
+      have : (runs b t).countP P = 0 := by
+        rw [List.countP_eq_zero]; intro u hu; simp [hpass t hq u hu]
+      omega)
+    (fun t _ _ => hb t)
+  have h2 := sa s
+  omega
+
+/-- pass-through condition of `cat_munch` for a dead `b` -/
+theorem pass_of_Dead {b : Re} {Q : List Nat → Bool} (h : Dead b Q) (P : List Nat → Bool) :
+    ∀ t, Q t = false → ∀ u ∈ runs b t, P u = false := by
+  intro t ht u hu
+  rw [h.runs_eq ht] at hu; simp at hu
+
+/-- pass-through condition of `cat_munch` for `b = star x` with a dead body -/
+theorem pass_star_of_Dead {x : Re} {Q' Q P : List Nat → Bool} (h : Dead x Q)
+    (hq : ∀ t, Q' t = false → Q t = false) (hp : ∀ t, Q' t = false → P t = false) :
+    ∀ t, Q' t = false → ∀ u ∈ runs (Re.star x) t, P u = false := by
+  intro t ht u hu
+  rw [runs_star_of_nil (h.runs_eq (hq t ht))] at hu
+  simp at hu; subst hu; exact hp t ht
+
+theorem Sparse1.star_cls (ivs) {P : List Nat → Bool} (hP : ∀ t, P t = true → startsIn ivs t = false) :
+    Sparse1 (Re.star (Re.cls ivs)) P := countP_runs_star_cls ivs P hP
+
+theorem Sparse1.star_chain {x : Re} (Q Q' : List Nat → Bool) {P : List Nat → Bool} (hdead : Dead x Q)
+    (hone : Sparse1 x Q') (hQ : ∀ t, Q t = true → Q' t = true) (hP : ∀ t, P t = true → Q' t = true)
+    (hPQ : ∀ t, P t = true → Q t = false) : Sparse1 (Re.star x) P :=
+  countP_runs_star_chain x Q Q' P (fun _ ht => hdead.runs_eq ht) hone hQ hP hPQ
+
+/-! #### `star` -/
+
+theorem PB.star_cls (ivs) {d : Nat} (hd : 1 ≤ d := by omega) : PB (Re.star (Re.cls ivs)) d :=
+  PB.mono ⟨2, fun s => by simpa using work_star_cls_le ivs s⟩ hd
+
+theorem RP.star_cls (ivs) {d : Nat} (hd : 1 ≤ d := by omega) : RP (Re.star (Re.cls ivs)) d :=
+  RP.mono ⟨1, fun s => by simpa [B] using runs_star_cls_length ivs s⟩ hd
+
+/-- chain rule: the body is dead outside `Q` and yields at most one `Q` result per iteration -/
+theorem RP.star_chain (Q : List Nat → Bool) {x : Re} {e g : Nat} (hdead : Dead x Q) (hone : Sparse1 x Q)
+    (rx : RP x e) (he : e + 1 ≤ g := by omega) : RP (Re.star x) g := by
+  obtain ⟨k, rx⟩ := rx
+  refine ⟨1 + k, fun s => ?_⟩
+  have h := runs_star_chain_length x Q (fun _ ht => hdead.runs_eq ht) hone s.length (B k e s.length)
+    (fun u hu => Nat.le_trans (rx u) (B_mono (Nat.le_refl _) (Nat.le_refl _) hu)) s (Nat.le_refl _)
+  have h1 : 1 + B k e s.length ≤ B (1 + k) e s.length := by
+    rw [← B_add]; have := le_B 1 e s.length; omega
+  calc _ ≤ _ := h
+    _ ≤ (s.length + 1) * B (1 + k) e s.length := Nat.mul_le_mul_left _ h1
+    _ = B (1 + k) (e + 1) s.length := succ_mul_B ..
+    _ ≤ _ := B_mono (Nat.le_refl _) he (Nat.le_refl _)
+
+theorem PB.star_chain (Q : List Nat → Bool) {x : Re} {d e g : Nat} (hdead : Dead x Q) (hone : Sparse1 x Q)
+    (hx : PB x d) (rx : RP x e) (hd : d + 1 ≤ g := by omega) (he : e + 1 ≤ g := by omega) :
+    PB (Re.star x) g := by
+  obtain ⟨w, hdead⟩ := hdead
+  obtain ⟨c, hx⟩ := hx
+  obtain ⟨k, rx⟩ := rx
+  refine ⟨1 + c + k * (1 + w), fun s => ?_⟩
+  have h := work_star_chain x Q w hdead hone s.length (B c (g - 1) s.length) (B k (g - 1) s.length)
+    (fun u hu => Nat.le_trans (hx u) (B_mono (Nat.le_refl _) (by omega) hu))
+    (fun u hu => Nat.le_trans (rx u) (B_mono (Nat.le_refl _) (by omega) hu)) s (Nat.le_refl _)
+  have h1 : 1 + B c (g - 1) s.length + B k (g - 1) s.length * (1 + w)
+      ≤ B (1 + c + k * (1 + w)) (g - 1) s.length := by
+    rw [← B_add, ← B_add, B_mul_const]; have := le_B 1 (g - 1) s.length; omega
+  show work (Re.star x) s ≤ B (1 + c + k * (1 + w)) g s.length
+  calc _ ≤ _ := h
+    _ ≤ (s.length + 1) * B (1 + c + k * (1 + w)) (g - 1) s.length := Nat.mul_le_mul_left _ h1
+    _ = B (1 + c + k * (1 + w)) (g - 1 + 1) s.length := succ_mul_B ..
+    _ ≤ _ := B_mono (Nat.le_refl _) (by omega) (Nat.le_refl _)
+
+/-- special case: a body with at most one result -/
+theorem PB.star_single {x : Re} {d g : Nat} (h1 : ∀ u, (runs x u).length ≤ 1) (hx : PB x d)
+    (hd : d + 1 ≤ g := by omega) : PB (Re.star x) g :=
+  PB.star_chain (fun _ => true) ⟨0, fun _ h => by simp at h⟩
+    (fun u => Nat.le_trans List.countP_le_length (h1 u)) hx (RP.of_const 1 h1 (d := 0)) hd (by omega)
+
+theorem RP.star_single {x : Re} {g : Nat} (h1 : ∀ u, (runs x u).length ≤ 1) (hg : 1 ≤ g := by omega) :
+    RP (Re.star x) g :=
+  RP.star_chain (fun _ => true) ⟨0, fun _ h => by simp at h⟩
+    (fun u => Nat.le_trans List.countP_le_length (h1 u)) (RP.of_const 1 h1 (d := 0)) (by omega)
+
+/-! #### star-free patterns have constant cost -/
+
+def starFree : Re → Bool
+  | .cat a b => starFree a && starFree b
+  | .alt a b => starFree a && starFree b
+  | .group _ a => starFree a
+  | .star _ => false
+  | _ => true
+
+theorem PB.of_starFree : ∀ (r : Re), starFree r = true → PB r 0
+  | .eps, _ => PB.eps
+  | .cls _, _ => PB.cls
+  | .eos, _ => PB.eos
+  | .eosNl, _ => PB.eosNl
+  | .unsupported, _ => PB.unsupported
+  | .group _ a, h => (PB.of_starFree a (by simpa [starFree] using h)).group
+  | .alt a b, h => by
+    simp [starFree] at h
+    exact PB.alt (PB.of_starFree a h.1) (PB.of_starFree b h.2)
+  | .cat a b, h => by
+    simp [starFree] at h
+    exact PB.cat (PB.of_starFree a h.1) (RP.of_PB (PB.of_starFree a h.1)) (PB.of_starFree b h.2)
+  | .star _, h => by simp [starFree] at h
+
 end Verif.Proofs.ReCost
